@@ -1089,6 +1089,16 @@ pub fn set_foreign_block_patience_ms(ms: u64) {
     FOREIGN_AFTER_MS.store(ms, Ordering::Relaxed);
 }
 
+/// Can the monitor see the state of this process's threads at all (`/proc/self/task/<tid>/stat`)? Scenarios that *plan*
+/// a block in a real lock ask first, and do without where the answer is no.
+pub fn foreign_block_monitor_available() -> bool {
+    static OK: std::sync::OnceLock<bool> = std::sync::OnceLock::new();
+    *OK.get_or_init(|| {
+        let me = unsafe { libc::syscall(libc::SYS_gettid) } as i32;
+        std::fs::read_to_string(format!("/proc/self/task/{me}/stat")).map(|s| s.rfind(") ").is_some()).unwrap_or(false)
+    })
+}
+
 fn os_thread_asleep(os_tid: i32) -> bool {
     // /proc/self/task/<tid>/stat: "<tid> (<comm>) <state> ..."; S = interruptible sleep (futex wait, ...)
     match std::fs::read_to_string(format!("/proc/self/task/{os_tid}/stat")) {
@@ -1145,7 +1155,8 @@ fn start_monitor() {
                     continue;
                 }
                 let cur = st.current;
-                if !matches!(st.threads[cur].status, Status::Runnable) || st.threads[cur].os_tid == 0 || !os_thread_asleep(st.threads[cur].os_tid) || !all_other_os_threads_asleep() {
+                if !matches!(st.threads[cur].status, Status::Runnable) || st.threads[cur].os_tid == 0 || !os_thread_asleep(st.threads[cur].os_tid) || (!all_other_os_threads_asleep() && since.elapsed().as_millis() < 5_000) {
+                    // (after five seconds without a step a starved lock holder is no longer a plausible explanation)
                     asleep_samples = 0;
                     continue;
                 }
